@@ -7,6 +7,7 @@
 // exactly in double ((p_tag * f == p_dim) and ((p_tag + e_tag) * f == p_dim + e_dim)), which the harness checks before
 // counting the case.  Oracle: same outcome (exception or not), same extent, same content as the unscaled request.
 #include <nix.hpp>
+#include <locale>
 #include <nix/util/dataAccess.hpp>
 #include <nix/util/util.hpp>
 #include <cmath>
@@ -87,9 +88,16 @@ int main(int argc, char **argv) {
     for (int i = 0; i < 5; i++) for (int j = 0; j < 6; j++) { if (!thorough && (i * 6 + j) % 5 != 0) continue; cfgs.push_back({{i, j}, {13, 0}}); }
     if (thorough) for (int i = 0; i < 5; i++) for (int j = 0; j < 5; j++) cfgs.push_back({{j, i}, {0, 14}});
 
+    // every configuration runs twice: in the classic locale and with a global C++ locale whose numbers are written with a decimal
+    // comma and grouped digits (what std::locale::global(std::locale("de_DE")) installs; built here from a facet, no system locale needed)
+    struct CommaNumbers : std::numpunct<char> { char do_decimal_point() const override { return ','; } char do_thousands_sep() const override { return '.'; } std::string do_grouping() const override { return "\3"; } };
+    const std::locale classic_locale = std::locale::classic(), comma_locale(std::locale::classic(), new CommaNumbers);
+    for (int loc = 0; loc < 2; loc++)
     for (size_t ci = 0; ci < cfgs.size(); ci++) {
         long cid = caseno++;
         if (!vf::take_case(cid)) continue;
+        struct LocaleGuard { std::locale old; LocaleGuard(const std::locale &l) : old(std::locale::global(l)) {} ~LocaleGuard() { std::locale::global(old); } } locale_guard(loc ? comma_locale : classic_locale);
+        const std::string LOCSFX = loc ? ", decimal-comma global locale" : "";
         const Cfg &cfg = cfgs[ci];
         size_t rank = cfg.d.size();
         NDSize ext(rank, 5);
@@ -104,7 +112,7 @@ int main(int argc, char **argv) {
             dimunits.push_back(u);
             desc += std::string(k ? " x " : " ") + (d.kind == 0 ? "sampled" : d.kind == 1 ? "range" : "set") + "[" + (u.empty() ? "-" : u) + "]";
         }
-        vf::case_desc(desc);
+        vf::case_desc(desc + LOCSFX);
         // per-axis candidates in dimension units
         std::vector<std::vector<double>> P(rank), E(rank);
         std::vector<double> q(rank), qe(rank);   // the SECOND position of the multi-tag: a fixed region inside the data
@@ -168,14 +176,14 @@ int main(int argc, char **argv) {
                         tag.position(p2); tag.extent(e2); tag.units(tu);
                         Out t1 = read_view([&] { return util::taggedData(tag, a, rm); });
                         vf::count("scaled_retrievals");
-                        if (!same(t0, t1)) vf::violation("C18|Tag retrieval with scaled units|" + pcls + "|differs from the unscaled request|" + (t1.threw != t0.threw ? (t1.threw ? "throws " + t1.exc : "returns data") : "other elements"), ctx + ": unscaled " + show(t0) + " scaled " + show(t1));
+                        if (!same(t0, t1)) vf::violation("C18|Tag retrieval with scaled units|" + pcls + LOCSFX + "|differs from the unscaled request|" + (t1.threw != t0.threw ? (t1.threw ? "throws " + t1.exc : "returns data") : "other elements"), ctx + ": unscaled " + show(t0) + " scaled " + show(t1));
                         // MultiTag
                         pos.setData(DataType::Double, p2.data(), prow, pzero); exa.setData(DataType::Double, e2.data(), prow, pzero);
                         std::string ue = vf::guarded([&] { mt.units(tu); });
                         Out m1 = read_view([&] { return util::taggedData(mt, 0, a, rm); });
                         vf::count("scaled_retrievals");
                         if (!ue.empty()) vf::violation("C18|MultiTag::units|SI unit rejected", ctx + " " + ue);
-                        else if (!same(m0, m1)) vf::violation("C18|MultiTag retrieval with scaled units|" + pcls + "|differs from the unscaled request|" + (m1.threw != m0.threw ? (m1.threw ? "throws " + m1.exc : "returns data") : "other elements"), ctx + ": unscaled " + show(m0) + " scaled " + show(m1));
+                        else if (!same(m0, m1)) vf::violation("C18|MultiTag retrieval with scaled units|" + pcls + LOCSFX + "|differs from the unscaled request|" + (m1.threw != m0.threw ? (m1.threw ? "throws " + m1.exc : "returns data") : "other elements"), ctx + ": unscaled " + show(m0) + " scaled " + show(m1));
                         // MultiTag, two positions in one call: the second position is re-expressed as well (only if that is exact too)
                         {
                             double qt = q[axis] / fct, qet = qe[axis] / fct;
@@ -184,7 +192,7 @@ int main(int argc, char **argv) {
                                 pos.setData(DataType::Double, q2.data(), prow, prow1); exa.setData(DataType::Double, qe2.data(), prow, prow1);
                                 Outs ml1 = read_views([&] { return util::taggedData(mt, both, a, rm); });
                                 vf::count("scaled_retrievals");
-                                if (!same(ml0, ml1)) vf::violation("C18|MultiTag retrieval of several positions with scaled units|" + pcls + "|differs from the unscaled request|" + (ml1.threw != ml0.threw ? (ml1.threw ? "throws " + ml1.exc : "returns data") : "other elements"), ctx + ": unscaled " + show(ml0) + " scaled " + show(ml1));
+                                if (!same(ml0, ml1)) vf::violation("C18|MultiTag retrieval of several positions with scaled units|" + pcls + LOCSFX + "|differs from the unscaled request|" + (ml1.threw != ml0.threw ? (ml1.threw ? "throws " + ml1.exc : "returns data") : "other elements"), ctx + ": unscaled " + show(ml0) + " scaled " + show(ml1));
                                 pos.setData(DataType::Double, q.data(), prow, prow1); exa.setData(DataType::Double, qe.data(), prow, prow1);
                             } else vf::count("cases_skipped_not_exact");
                         }
@@ -195,7 +203,7 @@ int main(int argc, char **argv) {
                             std::vector<std::string> su = mu; su[axis] = u;
                             Out d1 = read_view([&] { return util::dataSlice(a, s1, e1, su, rm); });
                             vf::count("scaled_retrievals");
-                            if (!same(d0, d1)) vf::violation("C18|dataSlice with scaled units|" + pcls + "|differs from the unscaled request|" + (d1.threw != d0.threw ? (d1.threw ? "throws " + d1.exc : "returns data") : "other elements"), ctx + ": unscaled " + show(d0) + " scaled " + show(d1));
+                            if (!same(d0, d1)) vf::violation("C18|dataSlice with scaled units|" + pcls + LOCSFX + "|differs from the unscaled request|" + (d1.threw != d0.threw ? (d1.threw ? "throws " + d1.exc : "returns data") : "other elements"), ctx + ": unscaled " + show(d0) + " scaled " + show(d1));
                         }
                         vf::distinct("outcomes", std::string("b|") + pcls + "|" + (t0.threw ? "throws" : "data") + "|" + std::to_string(rank));
                     }
